@@ -4,7 +4,7 @@ import NA.Proofs.F2Sem
 -/
 namespace NA.F2
 open NA.IosDev2
-open NA.F1 (genName lookupD addSet)
+open NA.F1 (genName lookupD addSet sortS)
 
 /-- Nothing but `needed` marks on device ACLs, messages and counters. -/
 def CoreEmpty (st : St) : Prop :=
@@ -134,30 +134,128 @@ theorem alignVRFs_spec (a b : Config) (st : St) (hc : CoreEmpty st) :
   · exact ⟨markInv_hit (markInv_refl a st hc) _, rfl, fun i hi => Or.inl hi,
       ⟨fun _ => true, (List.filter_eq_self.mpr (fun _ _ => rfl)).symm⟩,
       ⟨fun _ => true, (List.filter_eq_self.mpr (fun _ _ => rfl)).symm⟩⟩
-  · obtain ⟨h1, h2⟩ := fold_marks a "align:interface-removed"
-      (a.intfs.filter fun i => !(b.intfs.map (·.vrf) ++ b.routes.map (·.vrf)).contains i.vrf) st st (markInv_refl a st hc)
-    have h3 : MarkInv a st (if (a.routes.filter fun r => !(b.intfs.map (·.vrf) ++ b.routes.map (·.vrf)).contains r.vrf).isEmpty
-        then _ else _) := by
+  · obtain ⟨bV, hbV⟩ : ∃ bV, bV = b.intfs.map (·.vrf) ++ b.routes.map (·.vrf) := ⟨_, rfl⟩
+    rw [← hbV]
+    obtain ⟨st1, hst1⟩ : ∃ st1, st1 = (a.intfs.filter fun i => !bV.contains i.vrf).foldl
+        (fun st i => (markNeededIntf a st i).hit "align:interface-removed") st := ⟨_, rfl⟩
+    rw [← hst1]
+    obtain ⟨h1, h2⟩ := fold_marks a "align:interface-removed" (a.intfs.filter fun i => !bV.contains i.vrf) st st
+      (markInv_refl a st hc)
+    rw [← hst1] at h1 h2
+    obtain ⟨st2, hst2⟩ : ∃ st2, st2 = (if (a.routes.filter fun r => !bV.contains r.vrf).isEmpty then st1
+        else st1.hit "align:routes-removed") := ⟨_, rfl⟩
+    rw [← hst2]
+    have h3 : MarkInv a st st2 ∧ MarkInv a st1 st2 := by
+      rw [hst2]
       split
-      · exact h1
-      · exact markInv_hit h1 _
+      · exact ⟨h1, markInv_refl a st1 h1.core⟩
+      · exact ⟨markInv_hit h1 _, markInv_hit (markInv_refl a st1 h1.core) _⟩
     have h4 := fold_msgs a (fun v : String => "Leaving VRF " ++ (if v == "" then "<global>" else v) ++ " untouched")
-      _ st _ h3
+      ((sortS ((a.intfs.filter fun i => !bV.contains i.vrf).map (·.vrf) ++
+        (a.routes.filter fun r => !bV.contains r.vrf).map (·.vrf))).eraseDups) st st2 h3.1
+    have h5 := fold_msgs a (fun v : String => "Leaving VRF " ++ (if v == "" then "<global>" else v) ++ " untouched")
+      ((sortS ((a.intfs.filter fun i => !bV.contains i.vrf).map (·.vrf) ++
+        (a.routes.filter fun r => !bV.contains r.vrf).map (·.vrf))).eraseDups) st1 st2 h3.2
     refine ⟨h4, rfl, ?_, ⟨_, rfl⟩, ⟨_, rfl⟩⟩
     intro i hi
-    by_cases hv : (b.intfs.map (·.vrf) ++ b.routes.map (·.vrf)).contains i.vrf = true
+    by_cases hv : bV.contains i.vrf = true
     · exact Or.inl (List.mem_filter.mpr ⟨hi, hv⟩)
     · right
       have hm := h2 i (List.mem_filter.mpr ⟨hi, by simpa using hv⟩)
-      -- later steps only add hits and messages
-      intro bd hbd hh
-      have := hm bd hbd hh
-      have hmono : MarkInv a _ _ := fold_msgs a
-        (fun v : String => "Leaving VRF " ++ (if v == "" then "<global>" else v) ++ " untouched") _ _ _
-        (markInv_refl a _ h3.core)
-      exact hmono.mono _ (by
-        split
-        · exact this
-        · exact this)
+      exact marked_mono h5.mono hm
+
+
+/-! ## `checkIOSInterfaces` -/
+
+theorem checkStep_false (a b : Config) (s : St) (x : Intf) : checkStep a b (s, false) x = (s, false) := by
+  simp [checkStep]
+
+theorem fold_checkStep_false (a b : Config) (l : List Intf) (s : St) :
+    l.foldl (checkStep a b) (s, false) = (s, false) := by
+  induction l with
+  | nil => rfl
+  | cons x xs ih => simp only [List.foldl_cons, checkStep_false, ih]
+
+theorem checkStep_true (a b : Config) (s0 s : St) (x : Intf) (hs : MarkInv a s0 s) :
+    MarkInv a s0 (checkStep a b (s, true) x).1 ∧
+    ((checkStep a b (s, true) x).2 = true → bFind b x.name = none → Marked a (checkStep a b (s, true) x).1 x) := by
+  unfold checkStep
+  simp only [Bool.not_true, Bool.false_eq_true, ↓reduceIte]
+  cases hb : bFind b x.name with
+  | some bi =>
+    simp only
+    have h1 : MarkInv a s0 (if (x.addr != bi.addr && bi.addr != "negotiated") = true then
+        (s.msg ("WARNING>>> Different address defined for interface " ++ x.name ++ ": Device: " ++ quote x.addr ++
+          ", Netspoc: " ++ quote bi.addr)).hit "check:address-differs" else s) := by
+      split
+      · exact markInv_hit (markInv_msg hs _) _
+      · exact hs
+    split
+    · exact ⟨markInv_hit (markInv_msg h1 _) _, fun _ h => by cases h⟩
+    · split
+      · exact ⟨markInv_hit (markInv_msg h1 _) _, fun _ h => by cases h⟩
+      · exact ⟨h1, fun _ h => by cases h⟩
+  | none =>
+    simp only
+    obtain ⟨h1, h2⟩ := markInv_mark hs x
+    split
+    · exact ⟨markInv_hit (markInv_msg h1 _) _, fun _ _ => h2⟩
+    · exact ⟨markInv_hit h1 _, fun _ _ => h2⟩
+
+theorem fold_checkStep (a b : Config) (l : List Intf) (s0 s : St) (hs : MarkInv a s0 s)
+    (hok : (l.foldl (checkStep a b) (s, true)).2 = true) :
+    MarkInv a s0 (l.foldl (checkStep a b) (s, true)).1 ∧
+    ∀ x ∈ l, bFind b x.name = none → Marked a (l.foldl (checkStep a b) (s, true)).1 x := by
+  induction l generalizing s0 s with
+  | nil => exact ⟨hs, by simp⟩
+  | cons x xs ih =>
+    simp only [List.foldl_cons] at hok ⊢
+    obtain ⟨h1, h2⟩ := checkStep_true a b s0 s x hs
+    obtain ⟨⟨s', f⟩, hsf⟩ : ∃ r, checkStep a b (s, true) x = r := ⟨_, rfl⟩
+    rw [hsf] at hok h1 h2 ⊢
+    cases f with
+    | false => rw [fold_checkStep_false] at hok; cases hok
+    | true =>
+      simp only at h1 h2
+      obtain ⟨h3, h4⟩ := ih s0 s' h1 hok
+      obtain ⟨h5, _⟩ := ih s' s' (markInv_refl a s' h1.core) hok
+      refine ⟨h3, ?_⟩
+      intro y hy hb
+      rcases List.mem_cons.mp hy with rfl | hy'
+      · exact marked_mono h5.mono (h2 trivial hb)
+      · exact h4 y hy' hb
+
+theorem checkInterfaces_spec (a b : Config) (st : St) (hc : CoreEmpty st) (hok : (checkInterfaces a b st).2 = true) :
+    MarkInv a st (checkInterfaces a b st).1 ∧
+    (∀ ai ∈ a.intfs, bFind b ai.name = none → Marked a (checkInterfaces a b st).1 ai) ∧
+    (∀ bi ∈ b.intfs, ∃ ai ∈ a.intfs, ai.name = bi.name) := by
+  unfold checkInterfaces at hok ⊢
+  simp only at hok ⊢
+  obtain ⟨⟨s1, f1⟩, hs1⟩ : ∃ r, a.intfs.foldl (checkStep a b) (st, true) = r := ⟨_, rfl⟩
+  rw [hs1] at hok ⊢
+  cases f1 with
+  | false => simp at hok
+  | true =>
+    simp only [Bool.not_true, Bool.false_eq_true, ↓reduceIte] at hok ⊢
+    have hfold := fold_checkStep a b a.intfs st st (markInv_refl a st hc) (by rw [hs1])
+    rw [hs1] at hfold
+    cases hf : b.intfs.find? fun bi => !(a.intfs.any fun ai => ai.name == bi.name) with
+    | some bi => rw [hf] at hok; simp at hok
+    | none =>
+      refine ⟨hfold.1, hfold.2, ?_⟩
+      intro bi hbi
+      have := List.find?_eq_none.mp hf bi hbi
+      simp only [Bool.not_eq_true', Bool.not_eq_false, List.any_eq_true, beq_iff_eq] at this
+      exact this
+
+theorem bFind_none_iff (b : Config) (n : String) : bFind b n = none ↔ n ∉ b.intfs.map (·.name) := by
+  unfold bFind
+  rw [List.find?_eq_none]
+  constructor
+  · intro h hc
+    obtain ⟨i, hi, rfl⟩ := List.mem_map.mp hc
+    exact h i (List.mem_reverse.mpr hi) (by simp)
+  · intro h i hi hc
+    exact h (List.mem_map.mpr ⟨i, List.mem_reverse.mp hi, by simpa using hc⟩)
 
 end NA.F2
